@@ -124,6 +124,15 @@ def c15(tier):
                 _ob("H-pipeline/3", HP, "h_pipeline", dict(max_stages=3, fails=False), **_HO)]
 
 
+def c14(tier):
+    q = [_ob("H-cancel", "harness.h_cancel", "h_cancel", dict(shapes=["indep3", "chain3", "fork3"], maxns=[1, 2], followups=1,
+                                                             complete_flag=[True, False]), **_HO)]
+    if tier == "quick":
+        return q
+    return q + [_ob("H-cancel/wide", "harness.h_cancel", "h_cancel", dict(shapes=["indep3", "chain3", "join3"], maxns=[1, None],
+                                                                         followups=2, complete_flag=[True]), **_HO)]
+
+
 def obligations(prop, tier):
     table = {
         "C01": lambda t: k_batch(t) + k_queue(t) + h_submit(t),
@@ -135,6 +144,7 @@ def obligations(prop, tier):
         "C07": lambda t: k_batch(t) + h_submit(t) + h_dry(t),
         "C09": h_submit,
         "C12": h_lost,
+        "C14": c14,
         "C15": c15,
         "C17": c17,
         "C18": c18,
